@@ -194,6 +194,12 @@ def classify(r, expect_covers=True):
     if r.status == "not-run":
         r.status, r.reason = "undecided", r.reason or "no result parsed (compile error, ICE, timeout or memory cap)"
         return
+    if r.status == "failed" and any("pointer to unallocated memory" in d for d, _ in r.failed_checks):
+        # CBMC's memory model gave up (seen with Vec growth from a dangling pointer next to symbolic statics): every other
+        # failure of this harness is then unreliable - a tool limit, not a violation
+        r.status = "undecided"
+        r.reason = "CBMC memory-model limitation (pointer to unallocated memory); failures of this harness are not trusted"
+        return
     if r.status == "failed":
         real = [(d, l) for d, l in r.failed_checks if not UNDECIDED_OBLIGATION.search(d)]
         if not real:
